@@ -293,7 +293,7 @@ pub fn c04(ctx: &Ctx, rep: &mut Report) {
             rep.count("big_histories");
         }
         gen::tame(&mut cfg, bytes.len());
-        let ops = gen_ops(&mut rng, r.recs.len(), r.has_err(), &w, if ctx.miri { 10 } else { 40 });
+        let ops = gen_ops(&mut rng, r.recs.len(), r.has_err(), &w, if ctx.miri { 10 } else if ctx.tier_thorough { 70 } else { 40 });
         let case = build_case(fmt, bytes, cfg, vec![], ops);
         rep.evaluations += 1;
         let out = run_history(
@@ -395,7 +395,7 @@ pub fn c05(ctx: &Ctx, rep: &mut Report) {
             rep.count("big_histories");
         }
         gen::tame(&mut cfg, bytes.len());
-        let ops = gen_ops(&mut rng, r.recs.len(), r.has_err(), &w, if ctx.miri { 10 } else { 40 });
+        let ops = gen_ops(&mut rng, r.recs.len(), r.has_err(), &w, if ctx.miri { 10 } else if ctx.tier_thorough { 70 } else { 40 });
         let case = build_case(fmt, bytes, cfg, vec![], ops);
         rep.evaluations += 1;
         let out = run_history(
@@ -534,7 +534,7 @@ pub fn c06(ctx: &Ctx, rep: &mut Report) {
         cfg.policy = hostile_policy(&mut rng);
         gen::tame(&mut cfg, bytes.len());
         let faults = gen_faults(&mut rng);
-        let ops = gen_ops(&mut rng, r.recs.len(), r.has_err(), &w, if ctx.miri { 12 } else { 40 });
+        let ops = gen_ops(&mut rng, r.recs.len(), r.has_err(), &w, if ctx.miri { 12 } else if ctx.tier_thorough { 70 } else { 40 });
         let case = build_case(fmt, bytes, cfg, faults, ops);
         if ctx.only.is_some() && ctx.verbose {
             eprintln!("CASE {}", serde_json::to_string_pretty(&case.describe()).unwrap());
@@ -944,8 +944,9 @@ pub fn c14(ctx: &Ctx, rep: &mut Report) {
         let (c_r, c_s) = (out0.stats.read_calls, out0.stats.seek_calls);
         // all k when few calls, else first/last 8 + seeded sample
         let mut ks: Vec<(usize, bool)> = vec![];
+        let all_below = if ctx.tier_thorough { 512 } else { 64 };
         let pick = |c: usize, rng: &mut Rng| -> Vec<usize> {
-            if c <= 64 {
+            if c <= all_below {
                 (1..=c).collect()
             } else {
                 let mut v: Vec<usize> = (1..=8).chain(c - 7..=c).collect();
